@@ -18,6 +18,8 @@ type DB struct {
 	mu     sync.Mutex
 	n      int // calls seen so far
 	FailAt int // index of the call that fails (-1: none)
+	// Persist: every call from FailAt on fails (the storage stays broken until the operation returns)
+	Persist bool
 	Fired  bool
 	Kinds  []string // kind of every call, by index
 	// crash images: a copy of the whole store after each physical write
@@ -39,7 +41,7 @@ func (d *DB) hit(kind string) bool {
 	i := d.n
 	d.n++
 	d.Kinds = append(d.Kinds, kind)
-	if i == d.FailAt {
+	if i == d.FailAt || (d.Persist && d.FailAt >= 0 && i > d.FailAt) {
 		d.Fired = true
 		return true
 	}
